@@ -8,20 +8,20 @@ chk("C11", "exploration", "exhaustive enumeration + online reference-codec oracl
     "Text with interior '=' and non-canonical trailing bits is unjudged (statement silent).",
     "DESIGN.md 3/C11")
 chk("C02", "exploration", "exhaustive configuration-matrix enumeration + table-model monitor + primitive hook, under ASan/UBSan",
-    "The finite matrix provider x route (setkey / four callback variants / three setkey histories: refused call after an admitted one, admitted after admitted) x configured alg (16) x key (absent + every family) x key alg "
-    "attribute (absent, every name, unknown) x public/private x header alg variant (45, incl. spellings a lenient parser would take for a real name: "RS 256", "RS+256", "RS0256", " HS256") x signature kind (empty, garbage, valid, "
+    "The finite matrix provider x route (setkey / four callback variants / three setkey histories: refused call after an admitted one, admitted after admitted / a preset key replaced by the callback / a callback whose alg changes between two uses of one object) x configured alg (16) x key (absent + every family) x key alg "
+    "attribute (absent, every name, unknown) x public/private x header alg variant (45, incl. spellings a lenient parser would take for a real name: 'RS 256', 'RS+256', 'RS0256', ' HS256') x signature kind (empty, garbage, valid, "
     "HMAC under empty / public-PEM / zero keys) is enumerated (thorough: completely; quick: reduced axes), each setkey/verify/"
     "generate call is logged at the API boundary and judged offline by a 40-line table model; the LIBJWT_VERIF hook shows which "
     "alg/key actually reached each crypto primitive.",
     "Trusted: OpenSSL EVP as reference signer/verifier, the table model in monitors/policy_model.py. INVAL-involving setkey "
     "returns are unjudged. Providers not compiled (MbedTLS) are not covered.", "DESIGN.md 3/C02")
 chk("C03", "exploration", "exhaustive configuration x token-shape enumeration + predicate monitor under ASan/UBSan",
-    "Every checker/builder configuration (8 routes incl. setkey histories x explicit alg x key x key alg attribute x public/private) is crossed with "
+    "Every checker/builder configuration (10 routes incl. setkey and callback histories x explicit alg x key x key alg attribute x public/private) is crossed with "
     "every token shape (45 header-alg variants x 7 third-segment shapes); the monitor asserts the four clauses of the statement "
     "on each logged call and requires positive controls (alg-none accepted key-less, signed tokens accepted/produced).",
     "Trusted: harness token builder/decoder. A callback that withdraws a key is unjudged.", "DESIGN.md 3/C03")
 chk("C09", "exploration", "exhaustive key-size x algorithm enumeration + floor monitor + primitive hook under ASan/UBSan",
-    "oct keys of every length 0-160 bytes (quick: 15 boundary lengths), RSA moduli 512-4096 incl. 2047/2048/2049 (quick: 1024, "
+    "Routes: setkey, callback, and a callback that supplies the same key with its natural alg once and then with the cell's alg. oct keys of every length 0-160 bytes (quick: 15 boundary lengths), RSA moduli 512-4096 incl. 2047/2048/2049 (quick: 1024, "
     "2047, 2048), all four EC curves against all ES algs, Ed25519/Ed448/X25519, each for generate and for verify of a token the "
     "harness signed with that very key, via explicit alg and via key alg, by setkey and by callback, on both providers; the "
     "monitor asserts both directions (below floor never succeeds; at/above floor works).",
@@ -43,7 +43,7 @@ chk("C04", "exploration", "history replay against a reference claim model with a
     "Every configuration call and every verify of generated histories is logged at the API boundary and replayed through a "
     "30-line Python model of the statement: complete cross product of 7 clock values x 8 leeways x boundary neighbours / "
     "INT64 extremes / 12 non-integer JSON types for exp and nbf, all expected/actual string pairs for iss/sub/aud, then 2e4 "
-    "(quick) / 1e6 (thorough) random histories of claim_set/claim_del/time_leeway interleaved with verifies, on unsigned and "
+    "(quick) / 1e6 (thorough) random histories of claim_set/claim_del/time_leeway (incl. sets refused for a non-UTF-8 expectation) interleaved with verifies, on unsigned and "
     "HS256-signed tokens.",
     "Trusted: Python json as reference reader; the harness' time() replaces the libc clock for the statically linked library. "
     "Integers beyond int64 and escaped NULs are unjudged (jansson refuses them).", "DESIGN.md 3/C04")
@@ -57,9 +57,9 @@ chk("C06", "exploration", "sanitizers (gcc ASan+UBSan+LSan; clang libFuzzer+ASan
     "overflows. clang's -fsanitize=null is disabled in the fuzz flavour (false alarm on ll.h's container_of idiom, which gcc's "
     "UBSan does not flag). NUL-prefix and over-deep JSON are ambiguous and unjudged.", "DESIGN.md 3/C06")
 chk("C07", "exploration", "sanitizers (gcc ASan+UBSan+LSan, clang libFuzzer) over a single/double-fault JWK matrix + Python json reference monitor",
-    "The exhaustive single-fault matrix (every key template x 17 members x 16 substitutes), sampled fault pairs (3e3 / 1.5e5), "
+    "The exhaustive single-fault matrix (every key template x 17 members x 18 substitutes incl. printf directives), sampled fault pairs (3e3 / 1.5e5), "
     "key sets mixing good and bad elements (up to 1100 / 4100 elements), base64url members with padding and blanks, 'keys' of every JSON type, non-JSON text, byte-mutated/truncated JWKs and random "
-    "bytes are loaded through all 11 jwks_load*/jwks_create* entry points (incl. explicit zero length) under sanitizers; every outcome (set error, item "
+    "bytes are loaded through 15 jwks_load*/jwks_create* entry points (string, length-limited, explicit zero length, file, FILE*, unreadable path, directory, FILE* positioned mid-file and at EOF; documents of exactly 2^k and 2^k+-1 bytes) under sanitizers; every key type is also imported while OpenSSL's own k-th allocation fails (memory safety judged, item shape counted); every outcome (set error, item "
     "count, per-item kid/error/message/kty/material) is logged and compared with what Python's json says the document is. "
     "libFuzzer (JWK dictionary, 1.5e5 / 5e6 executions) adds coverage-guided inputs.",
     "Trusted: Python json as reference reader with the ambiguity list of DESIGN 2.6; sanitizers see libjwt code only.",
@@ -75,41 +75,41 @@ chk("C15", "exploration", "bounded-exhaustive operation sequences + type-strict 
 chk("C16", "exploration", "bounded-exhaustive operation sequences + Python list model over logged state dumps, under ASan/UBSan/LSan",
     "All sequences up to length 4 (quick) / 5 (thorough) over 14 keyring operations, 1.5e3 / 4e4 random sequences up to "
     "length 200 and 16 / 160 long-keyring histories (300-key documents, up to ~3000 items); after every step the complete observable state (count, each item's unique id/kid/error by index, "
-    "find_bykid results, error_any, set error) is dumped and compared with an ordered-list model; AddressSanitizer catches "
+    "find_bykid results, error_any, set error; get/free with indexes that alias a valid one when narrowed: 2^32+k, 65536+k, 256, SIZE_MAX; bad items with and without imported key material) is dumped and compared with an ordered-list model; AddressSanitizer catches "
     "use of freed items, LeakSanitizer leaks at exit.",
     "Trusted: unique ids carried in key bytes/kids identify items; sanitizers see libjwt code only.", "DESIGN.md 3/C16")
 chk("C10", "exploration", "history replay against a Python builder model (own base64/JSON/HMAC decoding) with a harness clock, under ASan/UBSan",
     "1.2e4 (quick) / 4e5 (thorough) random histories of header/claim set/del, enable_iat, time_offset, setkey, setcb "
     "(callback scripts editing the per-token jwt_t, failing, or selecting a public key) interleaved with generate at controlled "
-    "clock values on both providers; each returned token is decoded by Python (canonical unpadded base64url, JSON objects), "
+    "clock values (a third of the generates on a clock that advances with every reading; user header strings include every alg name and near-names) on both providers; each returned token is decoded by Python (canonical unpadded base64url, JSON objects), "
     "header and payload are compared type-strictly with the model, builder snapshots before/after generate must be equal and "
     "equal to the model, signatures are re-verified (OpenSSL reference, Python hmac).",
     "Trusted: Python base64/json/hmac; OpenSSL reference verifier in the driver.", "DESIGN.md 3/C10")
 chk("C13", "exploration", "differential monitoring: reused object vs fresh identically configured twin at the same clock, under ASan/UBSan",
-    "Every ordered pair of a 33-member token pool (one member per failure layer, plus valid tokens) x 5 checker configurations x "
-    "with/without error_clear x provider, every ordered pair of 6 builder actions x 5 builder configurations, and 6e3 / 3e5 "
+    "Every ordered pair of a 42-member token pool (one member per failure layer, valid tokens, string claims that are present but not strings) x 6 checker configurations x "
+    "with/without error_clear x provider, every ordered pair of 8 builder actions (incl. reconfiguration between generates) x 5 builder configurations with and without callback, and 6e3 / 3e5 "
     "random histories up to length 20; each step's return value, error flag, message (after clear) and token (bytes for "
     "deterministic algs; header+payload and reference verification for ES256/PS256) are compared with a fresh twin's and, for "
     "verify, with the pristine verdict of the same (provider, configuration, token) taken at process start before any failing "
     "verification (catches process-wide hidden state a fresh twin shares).",
     "Oracles: fresh twin + pristine verdict (defects present from the first call on are other properties' business).", "DESIGN.md 3/C13")
-chk("C14", "exploration", "contract monitor over four logged workloads (histories, policy matrix, JWK fault matrix, typed-map sequences) under ASan/UBSan",
+chk("C14", "exploration", "contract monitor over five logged workloads (histories, policy matrix, JWK fault matrix, typed-map sequences, malformed-token generator) under ASan/UBSan",
     "The error contract (non-zero/NULL <=> flag set and message non-empty; success => flag clear and message empty; bad item "
     "=> message; return code == value.error) is asserted on every call of the reused/fresh history driver, the policy matrix, "
-    "the JWK fault matrix and the typed-map sequences (2.7e5 calls quick). The evidence lists which jwt_write_error messages "
+    "the JWK fault matrix, the typed-map sequences and the malformed-token generator of C06 (4.4e5 verifies quick; unknown alg names of 17 lengths up to 5000 characters). The evidence lists which jwt_write_error messages "
     "of the source were observed and which were not, so unreached failure causes are visible.",
     "Allocation-failure causes are C17's. Causes not in the four workloads are listed as unobserved messages.", "DESIGN.md 3/C14")
 chk("C12", "exploration", "dual-provider differential monitoring of the mutation workload + selector/environment/portability probes, under ASan/UBSan",
     "Every token of the C01 mutation workload (23 classes x every key/alg incl. HMAC keys of 65-200 bytes, past the hash block sizes x three signers: harness, libjwt/OpenSSL, libjwt/GnuTLS) "
     "is verified under both providers in the same process and the verdict pair is judged (agreement on RFC-signed and on invalid "
     "tokens, each provider accepts the other's signatures, byte-identical tokens for HS*/RS*/EdDSA); jwt_set_crypto_ops(_t) is "
-    "called with 22 names and ids -2..7 from both starting providers; 13 JWT_CRYPTO values are observed in child processes; "
-    "7 key types are loaded under one provider and used and freed under the other (4 combinations each).",
+    "called with 22 names and 50 ids of every residue and width (-2..11, 16+k, 255..258, 65537, 2^24+1, 919193, INT_MIN/MAX+-k) from both starting providers; 13 JWT_CRYPTO values are observed in child processes; "
+    "7 key types are loaded under one provider and used and freed under the other (4 combinations each), and builders/checkers/keyrings are used under alternating providers within one history (ABABAB, AABBAA).",
     "Excluded middle (valid but non-canonical tokens) is counted, not judged. secp256k1 is outside the common matrix. Two open "
     "known findings (Ed448 last byte on GnuTLS).", "DESIGN.md 3/C12")
 chk("C05", "exploration", "generate->verify round trips over random JSON trees and fresh keys, all provider pairs, Python JSON-equality monitor + reference verifier, under ASan/UBSan",
     "2.4e4 (quick) / 6e5 (thorough) round trips: fresh keys of every type and size x every admissible alg x all four (signing, "
-    "verifying) provider pairs x random header/claim JSON trees (incl. empty and 400-character member names) set through whole-object merge or typed setters at random clock "
+    "verifying) provider pairs x random header/claim JSON trees (incl. empty and 400-character member names, registered names such as aud/iss/jti/kid/crit with list and object values) set through whole-object merge or typed setters at random clock "
     "values. Every token must verify under the checker and under the OpenSSL reference, and the header/claims dumped by the "
     "checker callback must be JSON-equal (type-strict) to the harness' inputs plus alg/typ/iat. The run counts ECDSA signatures "
     "with a leading zero byte in r or s and is inconclusive below a minimum.",
@@ -142,14 +142,14 @@ chk("C18", "exploration", "ThreadSanitizer stress with injected scheduling delay
     "checkers per thread, one shared keyring with 9 keys, randomised start skew, and an allocator (jwt_set_alloc) that "
     "yields/sleeps at random inside library calls. Every result is compared with the sequential pre-pass (token bytes for "
     "HS*/RS*/EdDSA, header+payload and reference verification otherwise). TSan reports with libjwt frames are violations. "
-    "The evidence states thread-operations, overlapping same-key operation pairs (proof of actual concurrency) and injected yields; "
+    "Cold starts: 32 / 160 fresh processes (TSan and plain builds) whose 18 threads make the very first sign/verify calls of the process, reference pass afterwards. The evidence states thread-operations, overlapping same-key operation pairs (proof of actual concurrency) and injected yields; "
     "a repeat with too few overlaps makes the run inconclusive.",
     "Schedules are sampled. Races inside uninstrumented libraries are invisible. Helgrind not used (cost, noise).", "DESIGN.md 3/C18")
 chk("C20", "exploration", "black-box monitoring of the ASan-built tools (exit status, stdout) + OpenSSL-direct key comparison helper",
     "~2e3 (quick) / ~5e3 (thorough) tool invocations: jwt-verify over token lists of length 1..1024 (and 65536, 65537, 65792 failing tokens on stdin) with 0..n failing tokens at "
     "random positions, as arguments and on stdin (incl. an unterminated last line), tokens up to 64 KiB; jwt-generate -> jwt-verify for every key type with every "
     "documented spelling of the options (cross-checked against each tool's --help) in quiet, default, verbose and --print=cat output modes, the generator's stdout also piped as it is into jwt-verify -; key2jwk -> library import -> jwk2key -> "
-    "component-wise comparison for fresh keys of every type (oct keys with trailing NL/CR/NUL/space, leading NL, embedded NUL), EC keys "
+    "component-wise comparison for fresh keys of every type, several keys per key2jwk call (JWKS -> one file per key), key files beyond the 8 KiB read buffer (refusal tolerated, another key not); the decoded payload of generated tokens is compared with the documented claim options; (oct keys with trailing NL/CR/NUL/space, leading NL, embedded NUL), EC keys "
     "generated until leading-zero coordinates and scalars occurred (counted in the evidence); RFC 7518 member encodings checked by Python.",
     "Trusted: OpenSSL key accessors in drivers/d_c20.c; --print only with the command cat; Windows paths not exercised; blank lines/CRLF on "
     "stdin unjudged.", "DESIGN.md 3/C20")
